@@ -121,6 +121,10 @@ impl<'i> ResolvedCall<'i> {
         // call can be executed only on peers with such peer_id
         let tetraplet = &self.tetraplet;
         if tetraplet.peer_pk.as_str() != exec_ctx.run_parameters.current_peer_id.as_str() {
+            #[cfg(feature = "verif_probes")]
+            if argument_hash.is_none() {
+                air_log_targets::probe::hit("remote_call_unresolved_args", tetraplet.function_name.to_string());
+            }
             handle_remote_call(tetraplet.peer_pk.clone(), exec_ctx, trace_ctx);
             return Ok(());
         }
